@@ -62,7 +62,6 @@ fn main() {
     let full = std::env::args().any(|a| a == "--full");
     pass("main", full);
     // a second thread: fresh thread-local hasher keys, different allocation addresses
+    // (it also runs with the history the main thread left in process-global state)
     std::thread::spawn(move || pass("thread", false)).join().unwrap();
-    // and the main thread again, with history
-    pass("main-again", false);
 }
